@@ -45,6 +45,7 @@ RULE += (' Also: any_iter over an async iterator that sets itself up in __aiter_
 RULE += (' Also: await_each over a sequence that offers __getitem__ only.')
 RULE += (' Also: apply awaits its keywords in the order of the call, whatever their names.')
 RULE += (' Also: sync() wrappers of two distinct callables that compare and hash equal.')
+RULE += (' Also: sync() over a class whose instances are awaitable (the instance is awaited like any awaitable result).')
 ASSUMPTIONS = ["direct specification oracle (no stdlib twin exists for these helpers)"]
 EXHAUSTIVE = {"quick": True, "thorough": True}
 MAX_SHARDS = 8
@@ -100,7 +101,7 @@ def cases(tier, seed, shard, nshards):
             if idx % nshards == shard:
                 yield {"kind": "sync_related", "pattern": pattern, "order": order}
     for how in ("keyword_named_function", "keyword_named_like_internals", "class_attribute", "class_attribute_async_def",
-                "equal_callables"):
+                "equal_callables", "awaitable_class"):
         idx += 1
         if idx % nshards == shard:
             yield {"kind": "sync_calling_conventions", "how": how}
@@ -1197,6 +1198,20 @@ def run_sync_calling_conventions(case, stats):
             if res != (("first", 6), ("second", 6.0), ("first", 8)) or seen != [("first", 3), ("second", 3), ("first", 4)]:
                 viols.append({"key": "sync/result", "msg": f"sync wrappers of two equal callables: results {res!r}, calls {seen!r}"})
             res, want_seen = ("result", 7), seen
+        elif how == "awaitable_class":
+            # the callable is a CLASS whose instances are awaitable (a job, a request object): calling it hands back an
+            # awaitable like any other callable may - the wrapper awaits it
+            class Job:
+                def __init__(self, a):
+                    self.a = a
+
+                def __await__(self):
+                    seen.append(("awaited", self.a))
+                    return ("result", self.a)
+                    yield
+
+            res = drive(_await(A.sync(Job)(7)))
+            want_seen = [("awaited", 7)]
         elif how == "keyword_named_like_internals":
             res = drive(_await(A.sync(takes_function)(7, func=1, self=2, args=3, kwargs=4, wrapped=5, callable=6)))
             want_seen = [(7, None, 1, 2, 3, 4, 5, 6)]
